@@ -12,6 +12,7 @@ Open Scope nat_scope.
    to the reference semantics modulo R. *)
 Theorem C03_deep_parse_is_reference :
   forall (D : Type) (C : carrier D) (tb : optable) (R : D -> D -> Prop),
+  wf_table tb = true ->
   (forall a, R a a) -> (forall a b, R a b -> R b a) -> (forall a b c, R a b -> R b c -> R a c) ->
   (forall k a a' b b', R a a' -> R b b' -> R (binf C k a b) (binf C k a' b')) ->
   (forall k a a', R a a' -> R (unf C k a) (unf C k a')) ->
@@ -24,8 +25,8 @@ Theorem C03_deep_parse_is_reference :
     eval_deep C e vals = Ok v /\
     R v (ref_chain C tb (find_parsed_vars (flatten c)) vals c).
 Proof.
-  intros D C tb R Hr Hs Ht Hb Hu Ha c vals Hwf Hlen.
-  exact (deep_parse_is_reference C tb R Hr Hs Ht Hb Hu Ha c vals Hwf Hlen).
+  intros D C tb R Hwt Hr Hs Ht Hb Hu Ha c vals Hwf Hlen.
+  exact (deep_parse_is_reference C tb Hwt R Hr Hs Ht Hb Hu Ha c vals Hwf Hlen).
 Qed.
 
 (* 2. Hence the two forms agree: same variables, values equal modulo R, for every well-formed tree and assignment. *)
@@ -48,7 +49,7 @@ Proof.
   destruct (vars_in_chain c) as [Hv0 Hvr].
   destruct (flat_parse_is_reference C tb Hwt R Hr Hs Ht Hb Hu Ha (find_parsed_vars (flatten c)) vals Hlen c text Hwf Hv0 Hvr)
     as (fx & vf & F1 & F2 & F3 & F4).
-  destruct (deep_parse_is_reference C tb R Hr Hs Ht Hb Hu Ha c vals Hwf Hlen) as (e & vd & D1 & D2 & D3 & D4).
+  destruct (deep_parse_is_reference C tb Hwt R Hr Hs Ht Hb Hu Ha c vals Hwf Hlen) as (e & vd & D1 & D2 & D3 & D4).
   exists fx, e, vf, vd. repeat split; try assumption; [congruence|]. eapply Ht; [exact F4|apply Hs; exact D4].
 Qed.
 
@@ -60,12 +61,13 @@ Theorem C03_deep_eval_is_denotation :
   (forall a, R a a) -> (forall a b, R a b -> R b a) -> (forall a b c, R a b -> R b c -> R a c) ->
   (forall k a a' b b', R a a' -> R b b' -> R (binf C k a b) (binf C k a' b')) ->
   (forall k a a', R a a' -> R (unf C k a) (unf C k a')) ->
-  forall (flagged : nat -> Prop),
-  (forall k, flagged k -> forall a b c, R (binf C k (binf C k a b) c) (binf C k a (binf C k b c))) ->
+  forall (okop : dbop -> Prop),
+  (forall o, okop o -> bcomm o = true ->
+     forall a b c, R (binf C (bidx o) (binf C (bidx o) a b) c) (binf C (bidx o) a (binf C (bidx o) b c))) ->
   forall (look : nat -> str -> D) (okvar : nat -> str -> Prop) (okvars : list str -> Prop) (vals : list D),
   (forall v, okvars v -> length v <= length vals) ->
   (forall i x, okvar i x -> i < length vals /\ look i x = nth i vals (dflt C)) ->
-  forall e : deepex D, dwf flagged okvar okvars e ->
+  forall e : deepex D, dwf okop okvar okvars e ->
   exists v, eval_deep_relaxed C e vals = Ok v /\ R v (dden C look e).
 Proof. exact @eval_deep_is_dden. Qed.
 
